@@ -1,7 +1,7 @@
 (** * Proofs.SpecInvBase — C05 (specification level), part 1: infrastructure.
     List updates and counting, the board as a list of cells, [in_check] depends only on the
     placement, unpacking of [pos_valid], and elementary square geometry. *)
-From Coq Require Import Lia ZifyBool ZifyN ZifyNat.
+From Coq Require Import Lia ZifyBool ZifyN ZifyNat FinFun.
 From Chess Require Import Spec.Rules Proofs.TablesLib Proofs.TablesMeaning.
 Open Scope N_scope.
 
@@ -106,7 +106,7 @@ Lemma count_if_cntl (q:cell->bool) l : length l = 64%nat ->
   count_if (fun s => q (atl l s)) = N.of_nat (cntl q l).
 Proof.
   intro Hl. unfold count_if. f_equal. rewrite all_sq_seq, filter_map_len.
-  rewrite (cntl_seq q l None), Hl. f_equal. apply filter_ext.
+  rewrite (cntl_seq q l None), Hl. apply (f_equal (@length nat)). apply filter_ext.
   intro i. unfold atl. rewrite Nat2N.id. reflexivity.
 Qed.
 
@@ -175,7 +175,7 @@ Proof.
 Qed.
 
 Lemma all_sq_nodup : NoDup all_sq.
-Proof. rewrite all_sq_seq. apply FinFun.Injective_map_NoDup; [intros x y; lia|apply seq_NoDup]. Qed.
+Proof. rewrite all_sq_seq. apply Injective_map_NoDup; [intros x y; lia|apply seq_NoDup]. Qed.
 
 Lemma count_one_unique f a b : count_if f = 1 -> a < 64 -> b < 64 -> f a = true -> f b = true -> a = b.
 Proof.
